@@ -1,0 +1,366 @@
+//go:build verif
+
+package engine
+
+//@ ---------------------------------------------------------------- output side of a stream (C19)
+//@ -- "Output produced by put_char, nl, write and friends reaches the sink completely and in program order":
+//@ -- every output built-in resolves the stream it was asked for, hands the one item to that stream's writer exactly
+//@ -- once before it continues, reports the writer's error, and writes nothing to a stream of the wrong mode or type.
+
+//@ spec fun isOut(m ioMode) bool = m == ioModeWrite || m == ioModeAppend
+
+//@ func (*Stream).textWriter
+//@   property C19
+//@   requires s != nil
+//@   modifies nothing
+//@   ensures[an-input-stream-has-no-writer] !isOut(s.mode) ==> result1 == errWrongIOMode && result0.stream == nil
+//@   ensures[a-binary-stream-has-no-text-writer] isOut(s.mode) && s.streamType != streamTypeText ==> result1 == errWrongStreamType && result0.stream == nil
+//@   ensures[the-writer-of-this-stream] isOut(s.mode) && s.streamType == streamTypeText ==> result1 == nil && result0.stream == s
+
+//@ func (*Stream).binaryWriter
+//@   property C19
+//@   requires s != nil
+//@   modifies nothing
+//@   ensures[an-input-stream-has-no-writer] !isOut(s.mode) ==> result1 == errWrongIOMode && result0.stream == nil
+//@   ensures[a-text-stream-has-no-binary-writer] isOut(s.mode) && s.streamType != streamTypeBinary ==> result1 == errWrongStreamType && result0.stream == nil
+//@   ensures[the-writer-of-this-stream] isOut(s.mode) && s.streamType == streamTypeBinary ==> result1 == nil && result0.stream == s
+
+//@ func (*Stream).WriteRune
+//@   property C19
+//@   requires s != nil
+//@   requires[an-output-text-stream-has-a-sink] isOut(s.mode) && s.streamType == streamTypeText ==> s.sink != nil
+//@   modifies s.position
+//@   ghost-set sunk 1
+//@   bind twr, twrErr = (*Stream).textWriter#1
+//@   bind sunkN, sunkErr = textWriter.Write#1
+//@   at-call (*Stream).textWriter requires[the-writer-of-this-stream-is-asked-for] a0 == s
+//@   at-call textWriter.Write requires[writes-to-this-stream] a0.stream == s && isOut(s.mode) && s.streamType == streamTypeText
+//@   ensures[wrong-mode-is-refused] !isOut(old(s.mode)) ==> err == errWrongIOMode && size == 0
+//@   ensures[wrong-type-is-refused] isOut(old(s.mode)) && old(s.streamType) != streamTypeText ==> err == errWrongStreamType && size == 0
+//@   ensures[nothing-is-written-to-a-stream-of-the-wrong-mode-or-type] !(isOut(old(s.mode)) && old(s.streamType) == streamTypeText) ==> !called(sunkN)
+//@   ensures[reports-what-the-writer-reported] isOut(old(s.mode)) && old(s.streamType) == streamTypeText ==> called(sunkN) && size == sunkN && err == sunkErr
+//@   ensures[position-counts-bytes-written] s.position == wrap64(old(s.position) + size)
+
+//@ func (*Stream).WriteByte
+//@   property C19
+//@   requires s != nil
+//@   requires[an-output-binary-stream-has-a-sink] isOut(s.mode) && s.streamType == streamTypeBinary ==> s.sink != nil
+//@   modifies s.position
+//@   ghost-set sunk 1
+//@   bind bwr, bwrErr = (*Stream).binaryWriter#1
+//@   bind sunkN, sunkErr = binaryWriter.Write#1
+//@   at-call (*Stream).binaryWriter requires[the-writer-of-this-stream-is-asked-for] a0 == s
+//@   at-call binaryWriter.Write requires[writes-to-this-stream] a0.stream == s && isOut(s.mode) && s.streamType == streamTypeBinary
+//@   at-call binaryWriter.Write requires[exactly-the-one-byte-given] len(a1) == 1 && a1[0] == c
+//@   ensures[wrong-mode-is-refused] !isOut(old(s.mode)) ==> result == errWrongIOMode && s.position == old(s.position)
+//@   ensures[wrong-type-is-refused] isOut(old(s.mode)) && old(s.streamType) != streamTypeBinary ==> result == errWrongStreamType && s.position == old(s.position)
+//@   ensures[nothing-is-written-to-a-stream-of-the-wrong-mode-or-type] !(isOut(old(s.mode)) && old(s.streamType) == streamTypeBinary) ==> !called(sunkN)
+//@   ensures[reports-what-the-writer-reported] isOut(old(s.mode)) && old(s.streamType) == streamTypeBinary ==> called(sunkN) && result == sunkErr && s.position == wrap64(old(s.position) + sunkN)
+
+//@ func PutChar
+//@   property C19
+//@   requires[stream-terms-and-aliases-name-streams-that-exist] streamsValid(vm, env, streamOrAlias)
+//@   requires vm != nil
+//@   requires[every-output-stream-has-a-sink] forall p *Stream :: triggered(p.sink, p != nil && p.mode != 0 ==> p.sink != nil)
+//@   nosafety
+//@   let c = resolve(env, char)
+//@   bind s, serr = stream#1
+//@   bind n, werr = (*Stream).WriteRune#1
+//@   bind pe1 = permissionError#1
+//@   bind pe2 = permissionError#2
+//@   at-call stream#1 requires[the-stream-asked-for-is-resolved] a0 == vm && a1 == streamOrAlias && a2 == env
+//@   at-call (*Stream).WriteRune requires[the-character-given-goes-to-the-stream-asked-for] a0 == s && serr == nil && c is Atom && a1 == (c as Atom) && (c as Atom) <= 1114111
+//@   at-call (*Stream).WriteRune requires[written-once] !ghost(sunk)
+//@   onk[the-character-was-written-before-the-continuation-runs] called(werr) && werr == nil && kenv == env
+//@   nok[an-unknown-stream-is-an-error-and-nothing-is-written] serr != nil ==> !called(werr) && result.err == serr
+//@   at-call errors.Is#1 requires[the-write-error-is-classified] called(werr) && a0 == werr && a1 == errWrongIOMode
+//@   at-call errors.Is#2 requires[the-write-error-is-classified] called(werr) && a0 == werr && a1 == errWrongStreamType
+//@   nok[a-failed-write-is-reported-as-a-permission-error-or-as-it-is] called(werr) && werr != nil ==> (called(pe1) && result.err == pe1) || (called(pe2) && result.err == pe2) || result.err == werr
+//@   nok[an-input-stream-is-a-permission-error] called(werr) && werr == errWrongIOMode ==> called(pe1) && result.err == pe1
+//@   nok[a-binary-stream-is-a-permission-error] called(werr) && werr == errWrongStreamType ==> called(pe2) && result.err == pe2
+//@   at-call permissionError#1 requires[output-to-an-input-stream] a0 == operationOutput && a1 == permissionTypeStream && a2 == streamOrAlias && a3 == env
+//@   at-call permissionError#2 requires[character-output-to-a-binary-stream] a0 == operationOutput && a1 == permissionTypeBinaryStream && a2 == streamOrAlias && a3 == env
+//@   at-call InstantiationError requires[only-for-an-unbound-character] c is Variable && a0 == env
+//@   at-call typeError requires[not-a-character] a0 == validTypeCharacter && (a1 == char || a1 == c) && a2 == env && !(c is Variable) && !(c is Atom && (c as Atom) <= 1114111)
+
+//@ func PutByte
+//@   property C19
+//@   requires[stream-terms-and-aliases-name-streams-that-exist] streamsValid(vm, env, streamOrAlias)
+//@   requires vm != nil
+//@   requires[every-output-stream-has-a-sink] forall p *Stream :: triggered(p.sink, p != nil && p.mode != 0 ==> p.sink != nil)
+//@   nosafety
+//@   let c = resolve(env, byt)
+//@   bind s, serr = stream#1
+//@   bind werr = (*Stream).WriteByte#1
+//@   bind pe1 = permissionError#1
+//@   bind pe2 = permissionError#2
+//@   at-call stream#1 requires[the-stream-asked-for-is-resolved] a0 == vm && a1 == streamOrAlias && a2 == env
+//@   at-call (*Stream).WriteByte requires[the-byte-given-goes-to-the-stream-asked-for] a0 == s && serr == nil && c is Integer && a1 == (c as Integer) && 0 <= (c as Integer) && (c as Integer) <= 255
+//@   at-call (*Stream).WriteByte requires[written-once] !ghost(sunk)
+//@   onk[the-byte-was-written-before-the-continuation-runs] called(werr) && werr == nil && kenv == env
+//@   nok[an-unknown-stream-is-an-error-and-nothing-is-written] serr != nil ==> !called(werr) && result.err == serr
+//@   at-call errors.Is#1 requires[the-write-error-is-classified] called(werr) && a0 == werr && a1 == errWrongIOMode
+//@   at-call errors.Is#2 requires[the-write-error-is-classified] called(werr) && a0 == werr && a1 == errWrongStreamType
+//@   nok[a-failed-write-is-reported-as-a-permission-error-or-as-it-is] called(werr) && werr != nil ==> (called(pe1) && result.err == pe1) || (called(pe2) && result.err == pe2) || result.err == werr
+//@   nok[an-input-stream-is-a-permission-error] called(werr) && werr == errWrongIOMode ==> called(pe1) && result.err == pe1
+//@   nok[a-text-stream-is-a-permission-error] called(werr) && werr == errWrongStreamType ==> called(pe2) && result.err == pe2
+//@   at-call permissionError#1 requires[output-to-an-input-stream] a0 == operationOutput && a1 == permissionTypeStream && a2 == streamOrAlias && a3 == env
+//@   at-call permissionError#2 requires[byte-output-to-a-text-stream] a0 == operationOutput && a1 == permissionTypeTextStream && a2 == streamOrAlias && a3 == env
+//@   at-call InstantiationError requires[only-for-an-unbound-byte] c is Variable && a0 == env
+//@   at-call typeError requires[not-a-byte] a0 == validTypeByte && a1 == byt && a2 == env && !(c is Variable) && !(c is Integer && 0 <= (c as Integer) && (c as Integer) <= 255)
+
+//@ -- what the sink does when it is flushed, synced, closed or repositioned is its own business: no modifies clause (the
+//@ -- heap is havocked at these calls), no postcondition; declared so that the calls can be named (at-call, bind)
+//@ extern engine.flusher.Flush
+//@ extern engine.syncer.Sync
+//@ extern io.Closer.Close
+//@ extern io.Seeker.Seek
+//@ -- a term writing itself to the writer it is given (declared for write_term/3; it may write: the ghost says so)
+//@ extern engine.Term.WriteTerm
+//@   ghost-set sunk 1
+
+//@ func (*Stream).Flush
+//@   property C19
+//@   requires s != nil
+//@   at-call flusher.Flush requires[the-sink-of-this-output-stream-is-flushed] a0 == s.sink && isOut(s.mode)
+//@   at-call syncer.Sync requires[the-sink-of-this-output-stream-is-synced] a0 == s.sink && isOut(s.mode)
+//@   ensures[an-input-stream-is-refused] !isOut(old(s.mode)) ==> result == errWrongIOMode
+
+//@ func FlushOutput
+//@   property C19
+//@   requires[stream-terms-and-aliases-name-streams-that-exist] streamsValid(vm, env, streamOrAlias)
+//@   requires vm != nil
+//@   nosafety
+//@   bind s, serr = stream#1
+//@   bind fe = (*Stream).Flush#1
+//@   bind pe = permissionError#1
+//@   at-call stream#1 requires[the-stream-asked-for-is-resolved] a0 == vm && a1 == streamOrAlias && a2 == env
+//@   at-call (*Stream).Flush requires[the-stream-asked-for-is-flushed] a0 == s && serr == nil
+//@   onk[flushed-without-error-before-the-continuation-runs] called(fe) && fe == nil && kenv == env
+//@   nok[an-unknown-stream-is-an-error-and-nothing-is-flushed] serr != nil ==> !called(fe) && result.err == serr
+//@   nok[an-input-stream-is-a-permission-error] called(fe) && fe == errWrongIOMode ==> called(pe) && result.err == pe
+//@   nok[a-flush-error-is-reported] called(fe) && fe != nil && fe != errWrongIOMode ==> result.err == fe
+//@   at-call permissionError requires[output-to-an-input-stream] a0 == operationOutput && a1 == permissionTypeStream && a2 == streamOrAlias && a3 == env
+
+//@ func (*Stream).Close
+//@   property C19
+//@   requires s != nil
+//@   bind srcErr = io.Closer.Close#1
+//@   bind snkErr = io.Closer.Close#2
+//@   at-call io.Closer.Close#1 requires[the-source-of-this-stream-is-closed] a0 == s.source
+//@   at-call io.Closer.Close#2 requires[the-sink-of-this-stream-is-closed-after-its-source] a0 == s.sink && (!called(srcErr) || srcErr == nil)
+//@   at-call (*streams).remove requires[only-a-stream-closed-without-error-leaves-the-table-of-its-own-vm] a1 == s && (!called(srcErr) || srcErr == nil) && (!called(snkErr) || snkErr == nil)
+//@   at-call (*streams).remove requires[a-sink-that-can-be-closed-was-closed-first] !(s.sink is io.Closer) || called(snkErr)
+//@   ensures[the-error-of-closing-the-source-is-reported] called(srcErr) && srcErr != nil ==> result == srcErr && !called(snkErr)
+//@   ensures[the-error-of-closing-the-sink-is-reported] called(snkErr) && snkErr != nil ==> result == snkErr
+//@   ensures[no-other-error] (!called(srcErr) || srcErr == nil) && (!called(snkErr) || snkErr == nil) ==> result == nil
+
+//@ func Close
+//@   property C19
+//@   requires[stream-terms-and-aliases-name-streams-that-exist] streamsValid(vm, env, streamOrAlias)
+//@   requires vm != nil
+//@   nosafety
+//@   loop 1 invariant true
+//@   bind s, serr = stream#1
+//@   bind ce = (*Stream).Close#1
+//@   at-call stream#1 requires[the-stream-asked-for-is-resolved] a0 == vm && a1 == streamOrAlias && a2 == env
+//@   at-call (*Stream).Close requires[the-stream-asked-for-is-closed] a0 == s && serr == nil
+//@   onk[the-stream-was-closed-before-the-continuation-runs] called(ce) && (ce == nil || local(force, bool)) && kenv == env
+//@   nok[an-unknown-stream-is-an-error-and-nothing-is-closed] serr != nil ==> !called(ce) && result.err == serr
+//@   nok[after-closing-only-the-error-of-closing-is-reported] called(ce) ==> ce != nil && result.err == ce
+
+//@ func (*Stream).Seek
+//@   property C19
+//@   requires s != nil
+//@   bind skN, skErr = io.Seeker.Seek#1
+//@   at-call io.Seeker.Seek requires[only-a-repositionable-stream-is-moved-to-the-offset-asked-for] s.reposition && (a0 == s.source || a0 == s.sink) && a1 == offset && a2 == whence
+//@   at-store Stream.position requires[the-position-moves-only-after-a-successful-seek-and-to-the-offset-the-seeker-reported] target == s && called(skN) && skErr == nil && v == skN
+//@   ensures[a-stream-that-cannot-be-repositioned-is-refused-and-untouched] !old(s.reposition) ==> result1 == errReposition && result0 == 0 && s.position == old(s.position) && s.buf == old(s.buf) && s.endOfStream == old(s.endOfStream)
+//@   ensures[a-stream-that-cannot-be-repositioned-is-not-moved] !old(s.reposition) ==> !called(skN)
+//@   ensures[on-success-the-position-is-the-offset-reported] result1 == nil ==> s.position == result0
+//@   ensures[a-failed-seek-is-reported] called(skN) && skErr != nil ==> result0 == skN && result1 == skErr
+//@   ensures[the-position-is-where-the-source-says-it-is] called(skN) && skErr == nil ==> result0 == skN && result1 == nil && s.position == skN
+//@   ensures[what-was-buffered-before-the-move-is-dropped] called(skN) && skErr == nil && s.mode == 0 ==> s.buf.Reader != nil && s.endOfStream == 0 && gf(consumed, s.buf.Reader) == 0 && gf(lastRune, s.buf.Reader) == -1 && gf(lastByte, s.buf.Reader) == 0
+//@   ensures[either-the-seeker-underneath-is-asked-or-the-stream-stays-where-it-is] old(s.reposition) ==> (called(skN) && (skErr != nil || result0 == skN)) || (result0 == old(s.position) && result1 == nil && s.position == old(s.position))
+
+//@ func SetStreamPosition
+//@   property C19
+//@   requires[stream-terms-and-aliases-name-streams-that-exist] streamsValid(vm, env, streamOrAlias)
+//@   requires vm != nil
+//@   nosafety
+//@   let p = resolve(env, position)
+//@   bind s, serr = stream#1
+//@   bind n, kerr = (*Stream).Seek#1
+//@   bind pe = permissionError#1
+//@   at-call stream#1 requires[the-stream-asked-for-is-resolved] a0 == vm && a1 == streamOrAlias && a2 == env
+//@   at-call (*Stream).Seek requires[the-stream-asked-for-is-moved-to-the-position-given-counted-from-the-start] a0 == s && serr == nil && p is Integer && a1 == (p as Integer) && a2 == 0
+//@   onk[repositioned-before-the-continuation-runs] called(kerr) && kerr == nil && kenv == env
+//@   nok[an-unknown-stream-is-an-error-and-nothing-moves] serr != nil ==> !called(kerr) && result.err == serr
+//@   nok[a-stream-that-cannot-be-repositioned-is-a-permission-error] called(kerr) && kerr == errReposition ==> called(pe) && result.err == pe
+//@   nok[a-seek-error-is-reported] called(kerr) && kerr != nil && kerr != errReposition ==> result.err == kerr
+//@   at-call permissionError requires[reposition-permission] a0 == operationReposition && a1 == permissionTypeStream && a2 == streamOrAlias && a3 == env
+//@   at-call InstantiationError requires[only-for-an-unbound-position] p is Variable && a0 == env
+//@   at-call typeError requires[not-an-integer] a0 == validTypeInteger && a1 == position && a2 == env && !(p is Variable) && !(p is Integer)
+
+//@ ---------------------------------------------------------------- what stream_property/2 reports, current_input/output, set_input/output
+
+//@ func (*Stream).properties
+//@   property C19
+//@   nosafety
+//@   trusted-frame
+//@   bind eos = endOfStream.Term#1
+//@   at-call endOfStream.Term requires[the-end-of-stream-state-of-this-stream] a0 == s.endOfStream
+//@   at-call Atom.Apply#4 requires[position-is-the-number-of-bytes-consumed-or-written] a0 == atomPosition && len(a1) == 1 && a1[0] is Integer && (a1[0] as Integer) == s.position
+//@   at-call Atom.Apply#5 requires[end-of-stream-is-the-state-of-this-stream] a0 == atomEndOfStream && len(a1) == 1 && called(eos) && a1[0] == eos
+
+//@ func CurrentInput
+//@   property C19
+//@   requires vm != nil
+//@   nosafety
+//@   let r = resolve(env, stream)
+//@   bind u = Unify#1
+//@   at-call Unify requires[the-current-input-stream-of-this-vm-is-the-answer] a0 == vm && a1 == stream && a2 is *Stream && (a2 as *Stream) == vm.input && a3 == k && a4 == env
+//@   ensures[answers-a-variable-or-a-stream] r is Variable || r is *Stream ==> called(u) && result == u
+//@   ensures[anything-else-is-refused] !(r is Variable || r is *Stream) ==> !called(u)
+//@   at-call domainError requires[not-a-stream] a0 == validDomainStream && a1 == stream && a2 == env
+
+//@ func CurrentOutput
+//@   property C19
+//@   requires vm != nil
+//@   nosafety
+//@   let r = resolve(env, stream)
+//@   bind u = Unify#1
+//@   at-call Unify requires[the-current-output-stream-of-this-vm-is-the-answer] a0 == vm && a1 == stream && a2 is *Stream && (a2 as *Stream) == vm.output && a3 == k && a4 == env
+//@   ensures[answers-a-variable-or-a-stream] r is Variable || r is *Stream ==> called(u) && result == u
+//@   ensures[anything-else-is-refused] !(r is Variable || r is *Stream) ==> !called(u)
+//@   at-call domainError requires[not-a-stream] a0 == validDomainStream && a1 == stream && a2 == env
+
+//@ func SetInput
+//@   property C19
+//@   requires[stream-terms-and-aliases-name-streams-that-exist] streamsValid(vm, env, streamOrAlias)
+//@   requires vm != nil
+//@   nosafety
+//@   bind s, serr = stream#1
+//@   bind pe = permissionError#1
+//@   at-call stream#1 requires[the-stream-asked-for-is-resolved] a0 == vm && a1 == streamOrAlias && a2 == env
+//@   at-store VM.input requires[only-an-input-stream-becomes-the-current-input-of-this-vm] target == vm && v == s && serr == nil && s.mode == ioModeRead
+//@   onk[the-stream-asked-for-is-the-current-input] vm.input == s && vm.output == old(vm.output) && kenv == env
+//@   nok[an-error-changes-nothing] vm.input == old(vm.input) && vm.output == old(vm.output)
+//@   nok[an-unknown-stream-is-an-error] serr != nil ==> result.err == serr
+//@   nok[an-output-stream-is-a-permission-error] serr == nil ==> called(pe) && result.err == pe
+//@   at-call permissionError requires[input-from-an-output-stream] a0 == operationInput && a1 == permissionTypeStream && a2 == streamOrAlias && a3 == env && s.mode != ioModeRead
+
+//@ func SetOutput
+//@   property C19
+//@   requires[stream-terms-and-aliases-name-streams-that-exist] streamsValid(vm, env, streamOrAlias)
+//@   requires vm != nil
+//@   nosafety
+//@   bind s, serr = stream#1
+//@   bind pe = permissionError#1
+//@   at-call stream#1 requires[the-stream-asked-for-is-resolved] a0 == vm && a1 == streamOrAlias && a2 == env
+//@   at-store VM.output requires[only-an-output-stream-becomes-the-current-output-of-this-vm] target == vm && v == s && serr == nil && isOut(s.mode)
+//@   onk[the-stream-asked-for-is-the-current-output] vm.output == s && vm.input == old(vm.input) && kenv == env
+//@   nok[an-error-changes-nothing] vm.input == old(vm.input) && vm.output == old(vm.output)
+//@   nok[an-unknown-stream-is-an-error] serr != nil ==> result.err == serr
+//@   nok[an-input-stream-is-a-permission-error] serr == nil ==> called(pe) && result.err == pe
+//@   at-call permissionError requires[output-to-an-input-stream] a0 == operationOutput && a1 == permissionTypeStream && a2 == streamOrAlias && a3 == env && !isOut(s.mode)
+
+//@ func isStreamProperty
+//@   property C19
+//@   nosafety
+//@   modifies nothing
+//@   let sp = resolve(env, property)
+//@   ensures[an-unbound-property-matches-every-property] sp is Variable ==> result
+//@   ensures[input-and-output-are-the-atomic-properties] sp is Atom ==> result == ((sp as Atom) == atomInput || (sp as Atom) == atomOutput)
+//@   ensures[a-property-has-one-argument] sp is Compound && Compound.Arity(sp as Compound) != 1 ==> !result
+
+//@ func StreamProperty
+//@   property C19
+//@   requires vm != nil
+//@   nosafety
+//@   trusted-frame
+//@   frozen vm, k, env, stream, property
+//@   let r = resolve(env, stream)
+//@   bind d = Delay#1
+//@   loop 1 invariant true
+//@   loop 2 invariant true
+//@   loop 3 invariant true
+//@   at-call append#2 requires[a-given-stream-is-the-only-candidate] r is *Stream && len(a0) == 0 && len(a1) == 1 && a1[0] == (r as *Stream)
+//@   at-call append#1 requires[every-stream-of-this-vm-is-a-candidate-when-none-is-given] r is Variable && len(a1) == 1
+//@   at-call (*Stream).properties requires[the-properties-offered-with-a-stream-are-its-own] a0 == local(s, *Stream)
+//@   at-call (*Stream).properties requires[only-for-a-stream-or-an-unbound-first-argument] r is *Stream || r is Variable
+//@   at-call Delay requires[every-collected-alternative-is-offered] a0 == ks
+//@   at-call domainError#1 requires[not-a-stream] a0 == validDomainStream && a1 == stream && a2 == env && !(r is *Stream) && !(r is Variable)
+//@   at-call domainError#2 requires[not-a-stream-property] a0 == validDomainStreamProperty && a1 == property && a2 == env
+//@   ensures[the-alternatives-are-the-answer] r is *Stream || r is Variable ==> (called(d) && result == d) || (result != nil && result.err != nil)
+
+//@ func StreamProperty$1
+//@   property C19
+//@   nosafety
+//@   at-call Unify requires[each-alternative-answers-the-caller-with-its-own-continuation] a0 == vm && a3 == k && a4 == env
+//@   at-call Atom.Apply#1 requires[the-pattern-is-the-caller-s-two-arguments] len(a1) == 2 && a1[0] == stream && a1[1] == property
+//@   at-call Atom.Apply#2 requires[each-alternative-offers-one-property-of-one-stream] len(a1) == 2 && a1[0] is *Stream && (a1[0] as *Stream) == s && a1[1] == p
+
+//@ ---------------------------------------------------------------- how the lexer pulls runes from the stream (C19)
+//@ -- read_term/2,3 builds a parser over the stream; the lexer reads through a four-slot ring buffer (runeRingBuffer) so
+//@ -- that it can back up. What must hold for the cursor: a rune is pulled from the reader underneath only when no
+//@ -- backed-up rune is pending (so nothing is pulled twice or skipped), a pending rune is delivered first, and the end
+//@ -- token's look-ahead is one rune which is pushed back.
+
+//@ -- the reader underneath (the *Stream for read_term, strings.Reader for consult): declared to name the call; nothing is
+//@ -- assumed about it (no modifies clause: the heap is havocked at the call)
+//@ extern io.RuneReader.ReadRune
+
+//@ spec fun slot(i int) bool = 0 <= i && i < 4
+
+//@ func newRuneRingBuffer
+//@   property C19
+//@   modifies nothing
+//@   ensures[an-empty-look-ahead-buffer-on-the-reader-given] result.base == r && result.start == 0 && result.end == 0
+
+//@ func (*runeRingBuffer).ReadRune
+//@   property C19
+//@   requires b != nil
+//@   nosafety
+//@   bind pulled, pulledN, pullErr = io.RuneReader.ReadRune#1
+//@   at-call io.RuneReader.ReadRune requires[runes-are-pulled-from-the-reader-the-buffer-was-put-on] a0 == b.base
+//@   at-call io.RuneReader.ReadRune requires[a-rune-is-pulled-from-the-reader-underneath-only-when-none-is-pending] b.start == b.end
+//@   at-call (*runeRingBuffer).put requires[the-rune-pulled-is-the-one-buffered] a0 == b && called(pulled) && pullErr == nil && a1 == pulled
+//@   at-call (*runeRingBuffer).get requires[delivers-from-its-own-buffer] a0 == b
+//@   ensures[a-pending-rune-is-delivered-first-and-the-reader-is-left-alone] old(b.start) != old(b.end) ==> !called(pulled)
+//@   ensures[a-pending-rune-is-delivered-and-only-the-start-slot-moves] slot(old(b.start)) && slot(old(b.end)) && old(b.start) != old(b.end) ==> result0 == old(b.buf[b.start]) && result2 == nil && b.start == (old(b.start) + 1) % 4 && b.end == old(b.end)
+//@   ensures[a-read-error-of-the-reader-underneath-is-passed-on] called(pulled) && pullErr != nil ==> result0 == pulled && result1 == pulledN && result2 == pullErr
+
+//@ func (*runeRingBuffer).UnreadRune
+//@   property C19
+//@   requires b != nil
+//@   nosafety
+//@   modifies b.start
+//@   at-call (*runeRingBuffer).backup requires[backs-up-its-own-buffer] a0 == b
+//@   ensures[backing-up-never-fails-and-touches-no-reader] result == nil
+//@   ensures[backing-up-moves-the-start-slot-back-by-one] slot(old(b.start)) ==> b.start == (old(b.start) + 3) % 4
+
+//@ func (*Lexer).rawNext
+//@   property C19
+//@   requires l != nil
+//@   nosafety
+//@   bind nxr, nxn, nxerr = (*runeRingBuffer).ReadRune#1
+//@   at-call (*runeRingBuffer).ReadRune requires[the-lexer-reads-through-its-own-look-ahead-buffer] a0 == addr(l.input)
+//@   ensures[hands-on-what-the-buffer-delivered] called(nxr) && result0 == nxr && result1 == nxerr
+
+//@ func (*Lexer).backup
+//@   property C19
+//@   requires l != nil
+//@   nosafety
+//@   at-call (*runeRingBuffer).UnreadRune requires[the-lexer-backs-up-its-own-look-ahead-buffer] a0 == addr(l.input)
+
+//@ func (*Lexer).wasEndChar
+//@   property C19
+//@   requires l != nil
+//@   nosafety
+//@   bind endr, enderr = (*Lexer).next#1
+//@   at-call (*Lexer).next requires[looks-one-rune-ahead-in-its-own-input] a0 == l
+//@   at-call (*Lexer).backup requires[the-rune-after-the-end-token-is-pushed-back] a0 == l && called(endr) && enderr == nil
+//@   ensures[the-end-of-the-input-ends-the-term] called(endr) && (enderr != nil ==> result)
+
+//@ -- NewParser: its contract is in verif_contracts_c18curop.go
